@@ -37,6 +37,9 @@ struct Post {
     cost: Option<(&'static str, usize)>,
     /// the cost is written as a total (`@@ |amount| * rate`) instead of per unit
     total: bool,
+    /// the posting also carries a lot price equal to its cost, with a lot DATE (2024/01/02, before every transaction)
+    /// and a lot note: the price it states is still the cost, on the day of the TRANSACTION
+    dated_lot: bool,
 }
 
 #[derive(Clone)]
@@ -48,13 +51,16 @@ struct T {
 }
 
 fn p(acct: &'static str, milli: i64, com: usize) -> Post {
-    Post { acct, milli, com, cost: None, total: false }
+    Post { acct, milli, com, cost: None, total: false, dated_lot: false }
 }
 fn pc(acct: &'static str, milli: i64, com: usize, rate: &'static str, rc: usize) -> Post {
-    Post { acct, milli, com, cost: Some((rate, rc)), total: false }
+    Post { acct, milli, com, cost: Some((rate, rc)), total: false, dated_lot: false }
 }
 fn pt(acct: &'static str, milli: i64, com: usize, rate: &'static str, rc: usize) -> Post {
-    Post { acct, milli, com, cost: Some((rate, rc)), total: true }
+    Post { acct, milli, com, cost: Some((rate, rc)), total: true, dated_lot: false }
+}
+fn pl(acct: &'static str, milli: i64, com: usize, rate: &'static str, rc: usize) -> Post {
+    Post { acct, milli, com, cost: Some((rate, rc)), total: false, dated_lot: true }
 }
 
 fn alphabet() -> Vec<T> {
@@ -71,6 +77,8 @@ fn alphabet() -> Vec<T> {
         T { eff: None, day: D3, ps: vec![pt("P", -2_000, 1, "4", 2), p("Q", 8_000, 2)] },
         // a purchase with a secondary date after every other price of B: `2024/01/10=2024/01/25`
         T { eff: Some(25), day: D1, ps: vec![pc("P", 2_000, 1, "6", 2), p("Q", -12_000, 2)] },
+        // a sale out of a dated lot: `-1 B {5 T} [2024/01/02] (lot) @ 5 T` states 1 B = 5 T on the day of the sale
+        T { eff: None, day: D3, ps: vec![pl("P", -1_000, 1, "5", 2), p("Q", 5_000, 2)] },
     ]
 }
 
@@ -94,6 +102,9 @@ fn render(tprec: Option<u32>, seq: &[&T], mult: i64) -> String {
         }
         for po in &t.ps {
             s.push_str(&format!("  {}  {} {}", po.acct, fmt_milli(po.milli * mult), NAMES[po.com]));
+            if let (true, Some((r, rc))) = (po.dated_lot, po.cost) {
+                s.push_str(&format!(" {{{} {}}} [2024/01/02] (lot)", r, NAMES[rc]));
+            }
             if let Some((r, rc)) = po.cost {
                 if po.total {
                     s.push_str(&format!(" @@ {} {}", Q::new((po.milli * mult).abs() as i128, 1000).mul(Q::parse(r)), NAMES[rc]));
